@@ -44,7 +44,16 @@ def _operand_is(body, operand, keys):
     return place_key(p) in keys or place_key(body.canon_place(p)) in keys
 
 
+_CE_CACHE = {}
+
+
 def checkpoint_edges(body, name="checkpoint"):
+    """Edges on which the flag is known to be true: the true edges of tests of the flag itself, and - derived -
+    the Some edge of a test of an Option local all of whose Some(..) values are built under such an edge
+    (`let p = if checkpoint { .. Some(x) .. } else { None }; if let Some(x) = p { .. }`)."""
+    ck = (id(body), name)
+    if ck in _CE_CACHE:
+        return _CE_CACHE[ck]
     keys = flag_places(body, name)
     edges = []
     if not keys:
@@ -52,6 +61,33 @@ def checkpoint_edges(body, name="checkpoint"):
     for T in all_tests(body):
         if T.kind == "local" and _operand_is(body, T.operand, keys):
             edges.append(T.true_edge)
+    changed = True
+    rounds = 0
+    while changed and rounds < 4:
+        changed = False
+        rounds += 1
+        for T in all_tests(body):
+            if T.kind != "discr" or T.place["p"]:
+                continue
+            l = T.place["l"]
+            if not body.local_ty(l).startswith("std::option::Option"):
+                continue
+            e = _option_some_edge(T)
+            if not e or e in edges:
+                continue
+            some_sites, ok = [], True
+            for site, rv in _value_defs(body, l):
+                if rv["k"] == "agg" and rv.get("akind") == "adt":
+                    if rv.get("variant") in ("Some", 1):
+                        some_sites.append(site)
+                elif rv["k"] == "use" and rv["op"].get("k") == "const":
+                    pass        # a constant None
+                else:
+                    ok = False  # a call result or something else: unknown
+            if ok and some_sites and all(any(body.edge_guards(ge, s_.bb) for ge in edges) for s_ in some_sites):
+                edges.append(e)
+                changed = True
+    _CE_CACHE[ck] = edges
     return edges
 
 
